@@ -924,11 +924,25 @@ mod superimpose_style_sections {
         true_color: bool,
         null_syntect_style: SyntectStyle,
     ) -> Vec<(Style, String)> {
+        let syntax = explode(syntax_style_sections);
+        let diff = explode(diff_style_sections);
+        if syntax.len() != diff.len() || syntax.iter().zip(&diff).any(|(s, d)| s.1 != d.1) {
+            // The two annotations are not of the same text (e.g. malformed escape sequences in
+            // the input, which the two code paths treat differently). Do not crash, and do not
+            // drop text: show the line in its diff styles, without syntax highlighting.
+            return coalesce(
+                diff.into_iter()
+                    .map(|(style, c)| ((null_syntect_style, style), c))
+                    .collect(),
+                true_color,
+                null_syntect_style,
+            );
+        }
         coalesce(
             superimpose(
-                explode(syntax_style_sections)
+                syntax
                     .iter()
-                    .zip(explode(diff_style_sections))
+                    .zip(diff)
                     .collect::<Vec<(&(SyntectStyle, char), (Style, char))>>(),
             ),
             true_color,
